@@ -1198,7 +1198,8 @@ Proof.
   pose proof (special_model O p o mo mp Hp Hside Es) as Hspecial.
   rewrite H10, H11, H12, H20, H30, H31, !orb_true_r. cbn [app].
   assert (A : forall (x y : list nat), x = [] -> y = [] -> x ++ y = []) by (intros x y -> ->; reflexivity).
-  apply A; [exact Hcorr | exact Hspecial].
+  assert (H32 : (match mo, mo with Err, Ok _ => [32%nat] | _, _ => [] end) = []) by (destruct mo; reflexivity).
+  apply A; [exact Hcorr | apply A; [exact Hspecial | exact H32]].
 Qed.
 
 (* a history replayed from the model itself raises no finding at any step *)
